@@ -54,6 +54,7 @@ def bounds(tier):
 
 def required_guards(tier):
     return ['accepted', 'rejected', 'as_key', 'as_value', 'lookups', 'ep:setstate', 'ep:ctor-dict',
+            'ep:update-OOBTree', 'ep:ctor-OOSet',
             'ep:update-pairs', 'ep:setdefault', 'ep:insert', 'ep:ior', 'base:multi']
 
 
@@ -153,8 +154,10 @@ def job(fam, impl):
                    'setstate']
             if kind == 'BTree':
                 eps.append('insert')
+            eps += ['update-OOBTree', 'ctor-OOBucket']
         else:
-            eps = ['add', 'insert', 'update-list', 'ctor-list', 'ior', 'setstate']
+            eps = ['add', 'insert', 'update-list', 'ctor-list', 'ior', 'setstate',
+                   'update-OOTreeSet', 'ctor-OOSet']
 
         def build(bname):
             t = cls()
@@ -189,6 +192,17 @@ def job(fam, impl):
                 return cls([k])
             elif ep == 'ior':
                 t |= [k]
+            elif ep in ('update-OOBTree', 'ctor-OOBucket', 'update-OOTreeSet', 'ctor-OOSet'):
+                # a container of another (wider) family as the source
+                from BTrees import OOBTree as oo
+                src = getattr(oo, ep.split('-')[1] + ('Py' if impl == 'py' else ''))()
+                if ismap:
+                    src[k] = v
+                else:
+                    src.add(k)
+                if ep.startswith('ctor'):
+                    return cls(src)
+                t.update(src)
             elif ep == 'setstate':
                 n = cls()
                 flat = (k, v) if ismap else (k,)
@@ -206,8 +220,12 @@ def job(fam, impl):
                     continue
                 for bname in bases:
                     for ep in eps:
-                        if ep in ('ctor-dict', 'ctor-pairs', 'ctor-list', 'setstate') and bname != 'empty':
+                        if (ep in ('ctor-dict', 'ctor-pairs', 'ctor-list', 'setstate') or
+                                ep.startswith('ctor-OO')) and bname != 'empty':
                             continue
+                        if 'OO' in ep and (isinstance(x, Plain) or (isinstance(x, float) and x != x)
+                                           or fam == 'OO'):
+                            continue    # cannot be put into the OO source container
                         if ep == 'ctor-dict' and role == 'key' and not _hashable(x):
                             continue
                         if ep == 'update-dict' and role == 'key' and not _hashable(x):
